@@ -15,6 +15,15 @@ CHECKS = {
  "C04": ("exploration", "reference-model monitor (map of in-flight entries with deadlines) over seeded operation histories on the real ack.Queue and both expiration.List implementations; exactly-once outcome counting under concurrent stress",
          "Seeded sequential histories with colliding deadlines (equal, same second, past, future), wrong-type and unknown acknowledgements, duplicate registrations and self re-arming callbacks are executed on the real queue; every callback is compared with a map model (one-second band for deadlines) and after final sweeps every registration must have exactly one outcome. The List interface is checked alone for both implementations, and exactly-once is re-checked with 8-16 goroutines and a concurrent sweeper.",
          "Hook H4 exposes both list constructors. Deadlines are synthetic (no wall clock). Concurrency coverage is what the scheduler produced in the run.", "5/C04"),
+ "C08": ("exploration", "reference-model monitor (LWW element set) over exhaustively enumerated delivery schedules into real replicas, plus seeded multi-origin scenarios with offset clocks",
+         "Part A delivers every update list of <=4 (quick) / <=5 (thorough) add/remove updates over same and neighbouring keys, in every order, with every prefix re-delivered and every batching, to fresh real replicas through NotifyMsg and compares the listings with a reference LWW set (complete for that bound). Part B lets three real origin nodes with clocks offset by +-10 s issue real mutator calls with partial gossip and checks that origins and shuffled/duplicated/batched followers equal the LWW reference over the captured broadcasts.",
+         "Hook H3 sets the package clock (single goroutine for part B). Timestamps distinct per key; exact ties are counted and give no verdict. Visible state compared on identity, value fields and LastAdded.", "5/C08"),
+ "C09": ("exploration", "follower-equality monitor after every mutator call on a real node; exhaustive short call sequences plus seeded long ones",
+         "After each real mutator call on node A (all sequences of <=4/<=5 calls over a 14-call alphabet including every bulk removal, and seeded sequences of 5-30 calls) the broadcasts A queued are delivered to a follower, which must then list exactly what A lists; a call that changes A's listing without queuing a broadcast is a violation.",
+         "Single clock domain (hook H3 counter). Follower equality is on the exported listings.", "5/C09"),
+ "C10": ("exploration", "reference-model monitor (per-node LWW maps incl. tombstones) around real LocalState/MergeRemoteState exchanges after lossy gossip",
+         "Seeded pairs of real node histories with 0-100% of the gossip between them lost for good, followed by a real snapshot exchange A->B, B->A, both ways or into a fresh node; the receiver's listing must equal the visible part of the LWW merge of both nodes' entries (removals included), a fresh node must list what the sender lists, and after both directions the nodes agree.",
+         "Per-node reference built from the broadcasts each node issued/received (relies on C09). Ties give no verdict.", "5/C10"),
 }
 NOT_YET = "check not built yet in this round (design in DESIGN.md section 5); will be claimed once its monitor exists"
 
